@@ -47,6 +47,10 @@ mod connection;
 mod protocol_set;
 mod transport_service;
 
+/// Verification hooks: a drivable `TransportService` with real connection handles.
+#[cfg(feature = "verif")]
+pub mod verif;
+
 /// Substream direction.
 #[derive(Debug, Copy, Clone, Hash, PartialEq, Eq)]
 pub enum Direction {
